@@ -32,6 +32,7 @@ type Pool struct {
 	real *gosync.Pool
 }
 
+//go:norace
 func (p *Pool) poolName() string {
 	if p.name == "" {
 		if p.New == nil {
